@@ -10,6 +10,8 @@ mod vj;
 mod apis;
 mod apis2;
 mod apis3;
+mod apis4;
+mod apis5;
 
 fn main() {
     std::panic::set_hook(Box::new(|_| {}));
